@@ -567,8 +567,12 @@ PROPS = {
         "partial": ["the cryptographic strength of SCRAM is outside the model: the validity of a message (right proof, right signature, nonce extends) is decided by the harness's own RFC 5802 arithmetic"],
     },
     "C01": {
-        "class_prefixes": ["c01-", "c06-frame-too-large", "c06-garbage", "c06-advertised-mfs", "harness-crash"],
-        "subs": [{"name": "msg", "n_quick": 250, "n_thorough": 5000, "model": "coq/Codec/Message.v",
+        "class_prefixes": ["c01-", "c06-frame-too-large", "c06-garbage", "c06-advertised-mfs", "c06-ssplit-fields", "harness-crash"],
+        "subs": [{"name": "frame", "n_quick": 300, "n_thorough": 6000, "model": "coq/Frame/SessionSplit.v, coq/Frame/Transfer.v",
+             "rule": "the ssplit cases of C06/C07: a transfer the link has already cut (more = true, because of the peer's max-message-size) and that the session cuts "
+                     "again must keep its more flag on the last piece - otherwise the receiver ends the delivery early and the message does not arrive intact "
+                     "(class c06-ssplit-fields)"},
+            {"name": "msg", "n_quick": 250, "n_thorough": 5000, "model": "coq/Codec/Message.v",
              "rule": "the message codec at the level of sections: `enc` = generated messages (every subset of the optional sections, bodies of one amqp-value, "
                      "1..3 data or 1..3 amqp-sequence sections, or none) through Serializable / Deserializable<Message<Body<Value>>> against enc_message / "
                      "dec_message; `dec` = byte strings built from the sections: another order, a further section of some kind (the later one wins), more than "
